@@ -19,6 +19,7 @@ import ClipVerif.Model.AelOrder
 import ClipVerif.Model.OffsetGeom
 import ClipVerif.Model.Split
 import ClipVerif.Model.BuildPaths
+import ClipVerif.Model.IntersectList
 /-
 Correspondence side of the line protocol: `model <name> …` evaluates a hand model, `gen <fn> …`
 evaluates a generated function; both print the result in a canonical form that the harness
@@ -79,6 +80,35 @@ def model (name : String) (ts : Toks) : String :=
   | "pip", px :: py :: rest =>
     match takePath rest with
     | some (p, []) => toString (Model.pointInPolygon (p64 ⟨px, py⟩) (toP64 p).toArray)
+    | _ => "parse-error"
+  | "ixlist", topY :: n :: rest =>
+    -- n edges (bot, top: four integers each), then k node points as computed by the real code, in the
+    -- order the nodes were added
+    let rec ixEdges : Nat → List Int → List (Point64 × Point64) → Option (List (Point64 × Point64) × List Int)
+      | 0, r, acc => some (acc.reverse, r)
+      | k+1, bx :: by_ :: tx :: ty :: r, acc => ixEdges k r ((pt bx by_, pt tx ty) :: acc)
+      | _, _, _ => none
+    match ixEdges n.toNat rest [] with
+    | some (es, k :: ptoks) =>
+      match takePath (k :: ptoks) with
+      | some (ps, []) =>
+        -- with fewer than two edges the real code returns before `adjustCurrXAndCopyToSEL` (curX stays as the probe set it: bot.X)
+        let xs := if es.length < 2 then es.map fun e => e.1.X.toInt else es.map fun e => (Model.Ix.topX e.1 e.2 (i64 topY)).toInt
+        let (sel, nodes) := Model.Ix.build xs
+        let showN := fun (l : List (Nat × Nat)) => " ".intercalate (l.map fun a => s!"{a.1}-{a.2}")
+        let showL := fun (l : List Nat) => " ".intercalate (l.map toString)
+        let pts := toP64 ps
+        if pts.length != nodes.length then s!"x {xs} | n {showN nodes} | point-count-mismatch"
+        else
+          let sorted := (Model.Ix.sortNodes (nodes.zip pts)).map (·.1)
+          let canon := fun (l : List (Nat × Nat)) =>
+            if pts.eraseDups.length == pts.length then l else l.mergeSort fun a b => a.1 < b.1 || (a.1 == b.1 && a.2 ≤ b.2)
+          let tail := if nodes.isEmpty then s!"done  | ael {showL (List.range xs.length)}" else
+            match Model.Ix.process sorted (List.range xs.length) with
+            | none => "fault"
+            | some (done, ael) => s!"done {showN (canon done)} | ael {showL ael}"
+          s!"x {" ".intercalate (xs.map toString)} | n {showN nodes} | sel {if xs.length < 2 then "" else showL (sel.map (·.1))} | {tail}"
+      | _ => "parse-error"
     | _ => "parse-error"
   | "aelins", n :: rest =>
     -- n resident edges then the newcomer, 13 integers each (the probe sends pairwise distinct edges)
